@@ -21,7 +21,8 @@ SetOf(q) == {q[i] : i \in DOMAIN q}
 Has(e, k) == k \in DOMAIN e
 ListBag(q) == {[k |-> q[i], n |-> Cardinality({j \in DOMAIN q : q[j] = q[i]})] : i \in DOMAIN q}
 SameSet(q, S) == SetOf(q) = S /\ Len(q) = Cardinality(S)
-MonotoneVals(v, dir) == \A i, j \in DOMAIN v : i < j => IF dir = "inc" THEN v[i] <= v[j] ELSE v[i] >= v[j]
+(* documented precondition of the front ends: values monotone along the sequence *)
+MonotoneNew(v, f, dir) == \A i \in DOMAIN v : IF dir = "inc" THEN v[i] <= f ELSE v[i] >= f
 
 Call(e) ==
   \/ /\ e.op = "insert" /\ InsertCell(SetOf(e.bd), e.dim)
@@ -37,7 +38,7 @@ Step(e) ==
      /\ Call(e)
      /\ par' = par
      /\ val' = IF e.op = "identity" THEN val ELSE (arrow :> e.f) @@ val
-     /\ MonotoneVals(val', par.dir)
+     /\ (e.op # "identity" => MonotoneNew(val, e.f, par.dir)) = TRUE   \* "= TRUE": evaluated as a value, not as an action
      /\ diag' = diag \cup act'.closed_set
      /\ act'.ret = e.ret
      /\ Has(e, "fret") => e.fret = e.ret
